@@ -811,7 +811,7 @@ impl<const B: Word> Repr<B> {
             // the number is definitely smaller than
             Inexact(IBig::ZERO, Rounding::NoOp)
         } else {
-            let int = shr_digits::<B>(&self.significand, (-self.exponent) as usize);
+            let int = shr_digits::<B>(&self.significand, self.exponent.unsigned_abs());
             Inexact(int, Rounding::NoOp)
         }
     }
